@@ -48,6 +48,7 @@ def run(ctx, prop, n=None):
     ctx.cov["traces_validated_against_impl"] = accepted + len(rej)
     ctx.cov["evaluations"] = len(rows)
     ctx.notes["scenarios_rejected_any_property"] = len(rej)
+    ctx.notes["rejection_reasons_any_property"] = sorted({why for _, _, why, _ in rej})
     cnt = {}
     for r in rows:
         cnt[r["ev"]] = cnt.get(r["ev"], 0) + 1
